@@ -6,6 +6,7 @@ import Driver.Trace
 import Driver.Lock
 import Driver.Server
 import Driver.Filter
+import Driver.Dav
 open Lean
 
 def dispatch (j : Json) : Json :=
@@ -19,16 +20,20 @@ def dispatch (j : Json) : Json :=
   | "ping" => Driver.obj [("r", Json.str "pong")]
   | _ => Driver.obj [("error", Json.str "bad-model")]
 
-partial def loop (hin hout : IO.FS.Stream) (tb : Driver.LockTable) : IO Unit := do
+partial def loop (hin hout : IO.FS.Stream) (tb : Driver.LockTable) (dv : Array Dav.Store := #[]) : IO Unit := do
   let line ← hin.getLine
   if line.isEmpty then return ()
-  let (tb', out) := match Json.parse line with
+  let (tb', dv', out) := match Json.parse line with
     | .ok j =>
-      if Driver.getS j "m" == "lock" then Driver.handleLock tb j else (tb, dispatch j)
-    | .error e => (tb, Driver.obj [("error", Json.str ("parse: " ++ e))])
+      if Driver.getS j "m" == "lock" then
+        let (t, o) := Driver.handleLock tb j; (t, dv, o)
+      else if Driver.getS j "m" == "dav" then
+        let (d, o) := Driver.handleDav dv j; (tb, d, o)
+      else (tb, dv, dispatch j)
+    | .error e => (tb, dv, Driver.obj [("error", Json.str ("parse: " ++ e))])
   hout.putStrLn out.compress
   hout.flush
-  loop hin hout tb'
+  loop hin hout tb' dv'
 
 def main : IO Unit := do
   loop (← IO.getStdin) (← IO.getStdout) {}
